@@ -18,7 +18,7 @@ Clause(r, f) ==
     [] r.vclass = "panic" -> "panic"
     [] ~r.errok -> "error-not-renderable"
     [] Verdict(f) # r.vclass -> "verdict:" \o r.vclass \o "-want-" \o Verdict(f)
-    [] ~SameEvents(f.log, r.events) -> "validator-events"
+    [] ~r.weak /\ ~SameEvents(f.log, r.events) -> "validator-events"
     [] r.vclass = "acc" /\ r.l # FinalLayout(f) -> "layout"
     [] r.vclass = "acc" /\ ~r.uniform -> "mixed-layouts-in-result"
     [] r.vclass = "acc" /\ r.hastoks /\ r.tree # Tree(r.toks) -> "tree"
